@@ -26,8 +26,28 @@ def eval_stmts(prog, cls, stmts, params: list[str], ret: list[str]):
         decorator_list=[], type_params=[])
     ast.fix_missing_locations(fn)
     it = Interp(prog)
-    r = prog.find_method(cls, "__init__") or (cls, None)
-    return it.apply_def(fn, Env(), (cls.module, cls, SELF), [SELF] + [("sym", p.upper()) for p in params], {})
+    env = Env()
+    # parameters of the analysed method that the summary does not bind: a parameter added since the recording that
+    # no call site passes takes its default (the behaviour every existing caller gets); one that is passed is free
+    owner_fn = _OWNER.get("fn")
+    if owner_fn is not None:
+        a = owner_fn.args
+        qual = _OWNER.get("qual", "")
+        passed = set(prog.new_passed_params(qual, owner_fn)) if qual else set()
+        pos = a.posonlyargs + a.args
+        dmap = dict(zip([p.arg for p in pos[len(pos) - len(a.defaults):]], a.defaults))
+        dmap.update({p.arg: d for p, d in zip(a.kwonlyargs, a.kw_defaults) if d is not None})
+        for pname, dnode in dmap.items():
+            if pname in params or pname == "self":
+                continue
+            if pname in passed:
+                env.set(pname, ("sym", "NEW_" + pname.upper()))
+            else:
+                env.set(pname, it.eval_default(dnode, (cls.module, cls, SELF)))
+    return it.apply_def(fn, env, (cls.module, cls, SELF), [SELF] + [("sym", p.upper()) for p in params], {})
+
+
+_OWNER: dict = {}
 
 
 def _find(node, typ):
@@ -139,11 +159,17 @@ def as_flatmap(t):
 
 def _merge_chains(prog, rep, R, c):
     owner, fn = prog.method(CHAIN, "merge_chains")
+    _OWNER.update(fn=fn, qual=f"{owner.qualname}.merge_chains")
     site = method_site(prog, c, "merge_chains")
     body = [s for s in fn.body if not (isinstance(s, ast.Expr) and isinstance(s.value, ast.Constant))]
     whiles = [s for s in body if isinstance(s, ast.While)]
     if not whiles and _merge_chains_recursive(prog, rep, R, c, site, body):
         return
+    if not whiles:
+        inl = _inline_loop_helper(c, body)
+        if inl is not None:
+            body = inl
+            whiles = [s for s in body if isinstance(s, ast.While)]
     if len(whiles) != 1:
         # other loop-free implementations are not modelled
         rep.undecided(R, site, "Chain.merge_chains", "expected exactly one top-level while loop")
@@ -252,6 +278,24 @@ def _merge_chains(prog, rep, R, c):
     rets = [s for s in body[wi + 1:] if isinstance(s, ast.Return)]
     ok_r = bool(rets) and ast.unparse(rets[-1].value).replace(" ", "") in (f"Chain({S})", f"Chain(tuple({S}))",
                                                                          f"Chain(list({S}))")
+    if rets and not ok_r:
+        # the same by value: statements after the loop, then the returned expression
+        tail = list(body[wi + 1:])
+        tail = tail[:tail.index(rets[-1])] + [ast.Assign([ast.Name("_ret", ast.Store())], rets[-1].value)]
+        for x in tail:
+            ast.fix_missing_locations(x)
+        try:
+            gv = eval_stmts(prog, c, tail, [S], ["_ret"])
+            v = gv[1][0] if gv[0] == "tuple" and gv[1] else None
+            Ssym = ("sym", S.upper())
+            if v is not None and v[0] == "call" and v[1] == ("ext", CHAIN):
+                arg = dict(v[3]).get("bijections") or (v[2][0] if v[2] else None)
+                while arg is not None and arg[0] == "call" and arg[1] in (("ext", "builtins.list"), ("ext", "builtins.tuple")) \
+                        and len(arg[2]) == 1:
+                    arg = arg[2][0]
+                ok_r = arg == Ssym
+        except AnalysisError:
+            pass
     rep.check(ok_r, R, site, "Chain.merge_chains:result", f"returns Chain({S})",
               f"returns {ast.unparse(rets[-1].value) if rets else None}")
 
@@ -262,6 +306,7 @@ def rule_merge_transforms(prog: Program, rep: Report, R: str):
                 "Chain(...).merge_chains() on the innermost base distribution", minimum=4)
     c = prog.cls(TRANSFORMED)
     owner, fn = prog.method(TRANSFORMED, "merge_transforms")
+    _OWNER.update(fn=fn, qual=f"{owner.qualname}.merge_transforms")
     site = method_site(prog, c, "merge_transforms")
     body = [s for s in fn.body if not (isinstance(s, ast.Expr) and isinstance(s.value, ast.Constant))]
     whiles = [s for s in body if isinstance(s, ast.While)]
@@ -313,6 +358,27 @@ def rule_merge_transforms(prog: Program, rep: Report, R: str):
                 and len(n.args) == 2 and isinstance(n.args[0], ast.Constant) and n.args[0].value == 0:
             acc, mode = n.func.value.id, "insert0"
     if acc is None:
+        ext = [n for n in _find(w, ast.Call) if isinstance(n.func, ast.Attribute) and n.func.attr == "extend"
+               and isinstance(n.func.value, ast.Name) and len(n.args) == 1]
+        if len(ext) == 1:
+            # levels are collected outermost-first and the list is reversed once at the end: that is right only if each
+            # step contributes exactly ONE element, the visited level's bijection.  A group of pieces contributed per
+            # level (chains unnested here instead of by merge_chains) has its inner order reversed with the levels.
+            e = ext[0].args[0]
+            single = isinstance(e, (ast.List, ast.Tuple)) and len(e.elts) == 1 and \
+                ast.unparse(e.elts[0]).replace(" ", "") == f"{V}.bijection"
+            later_rev = any(isinstance(n, ast.Call) and ((isinstance(n.func, ast.Name) and n.func.id == "reversed") or
+                                                        (isinstance(n.func, ast.Attribute) and n.func.attr == "reverse"))
+                            for st in body[wi + 1:] for n in ast.walk(st)) or any(
+                isinstance(n, ast.Slice) and n.step is not None and ast.unparse(n.step) == "-1"
+                for st in body[wi + 1:] for n in ast.walk(st))
+            if not single and later_rev:
+                rep.violated(R, site, "merge_transforms:step",
+                             f"each level contributes `{ast.unparse(e)}` through {ext[0].func.value.id}.extend(...) - possibly "
+                             f"several pieces in application order - and the collected list is reversed as a whole "
+                             f"afterwards: the pieces of one level come out in reverse order (flattening is merge_chains' job, "
+                             f"which preserves order)")
+                return
         rep.undecided(R, site, "merge_transforms", "no accumulating append / insert(0, .) found in the loop")
         return
     if mode == "insert0":
@@ -460,6 +526,52 @@ FLATTEN_REC_REF = (
     "        else:\n"
     "            out.append(b)\n"
     "    return out\n")
+
+
+def _inline_loop_helper(c, body):
+    """[... f(args) ...] where f is a module-level helper that owns the loop: the helper's statements with its
+    parameters bound, then the statement with the call replaced by the helper's return value."""
+    import copy
+    for i, st in enumerate(body):
+        for call in [n for n in ast.walk(st) if isinstance(n, ast.Call) and isinstance(n.func, ast.Name)
+                     and n.func.id in c.module.functions and not n.keywords]:
+            h = c.module.functions[call.func.id]
+            hb = [x for x in h.body if not (isinstance(x, ast.Expr) and isinstance(x.value, ast.Constant))]
+            params = [a.arg for a in h.args.args]
+            if not (any(isinstance(x, ast.While) for x in hb) and hb and isinstance(hb[-1], ast.Return)
+                    and len(params) == len(call.args) and not h.args.kwonlyargs and not h.args.vararg):
+                continue
+            out = list(body[:i])
+            for pn, av in zip(params, call.args):
+                out.append(ast.Assign([ast.Name(pn, ast.Store())], copy.deepcopy(av)))
+            out.extend(copy.deepcopy(hb[:-1]))
+            out.append(ast.Assign([ast.Name("__helper_result", ast.Store())], copy.deepcopy(hb[-1].value)))
+
+            class Repl(ast.NodeTransformer):
+                def visit_Call(self, node):
+                    if node is call:
+                        return ast.Name("__helper_result", ast.Load())
+                    return self.generic_visit(node)
+            st2 = copy.deepcopy(st)
+            # locate the copied call by position
+            for n2 in ast.walk(st2):
+                if isinstance(n2, ast.Call) and ast.dump(n2) == ast.dump(call):
+                    target = n2
+                    break
+            else:
+                return None
+
+            class Repl2(ast.NodeTransformer):
+                def visit_Call(self, node):
+                    if node is target:
+                        return ast.Name("__helper_result", ast.Load())
+                    return self.generic_visit(node)
+            out.append(Repl2().visit(st2))
+            out.extend(body[i + 1:])
+            for x in out:
+                ast.fix_missing_locations(x)
+            return out
+    return None
 
 
 def _merge_chains_recursive(prog, rep, R, c, site, body) -> bool:
